@@ -1,7 +1,7 @@
 (* C19 — shape of the generated cases and the two executable verdicts. No proofs. *)
 From VLib Require Import CaseLib.
 From Coq Require Import ZArith.
-From C19 Require Import Model.
+From C19 Require Import Model ModelStart.
 Open Scope N_scope.
 
 (* ---------------------------------------------------------------- equality tests *)
@@ -123,7 +123,19 @@ Inductive case :=
    then the worker finishes (Done) while the fetch is still reading; (done, res) = the fetch's answer *)
 | CRace (w : world) (k : nat) (found done : bool) (res : qpr)
 | CProxy (naggs : nat) (size hi : N) (rev : bool) (shards : list (list replica)) (syncs : list qpr)
-         (impl : option (bool * qpr)).
+         (impl : option (bool * qpr))
+(* proxy level, histories that begin with the start: pattern = what every replica of every shard answers
+   to StartAsyncSearch; started/calls = whether Ingestor.StartAsyncSearch returned an ID and the calls it
+   made as (shard, replica); avail = what the store of each shard answers at fetch time IF it has the
+   request (real store-handler answers); syncs = the synchronous answer of every shard; impl = what
+   Ingestor.FetchAsyncSearchResult returned for the ID (None = NotFound, or no ID to fetch with) *)
+| CPStart (naggs : nat) (size hi : N) (rev : bool) (pattern : list (list sreply)) (avail : list (bool * qpr))
+          (syncs : list qpr) (started : bool) (calls : list (nat * nat)) (impl : option (bool * qpr))
+(* store level, pool pressure: the uninterrupted run with another goroutine acquiring, poisoning and
+   releasing buffers of the global bytes pool at the scheduling point between compression and file
+   write; plan = per fraction the buffer handed out and the interleaving (abstract buffers); final = the
+   directory afterwards as classified by the harness; (found, done, res) = the fetched answer *)
+| CPool (w : world) (plan : list fplan) (final : dir) (found done : bool) (res : qpr).
 
 (* proxy level: the replicas of every shard with their (real) store answers, the synchronous answer of
    every shard, and what Ingestor.FetchAsyncSearchResult returned (None = NotFound) *)
@@ -144,6 +156,12 @@ Fixpoint answering (shards : list (list replica)) (syncs : list qpr) : list (boo
   | _, _ => []
   end.
 Definition per_list (w : world) (s : dir) := stored_qprs (w_per w) s.
+
+(* stand-ins for zstd.CompressLevel and the JSON of fraction f's result in the pool cases: only the
+   equality "file bytes = compression of the payload" matters (C19_qpr_bytes_private holds for every cp) *)
+Definition case_cp (p : bytes) : bytes := 40 :: 181 :: 47 :: 253 :: p.
+Definition case_payload (f : N) : bytes := [f].
+Definition accepts (r : sreply) : bool := match r with SAccept => true | SRefuse => false end.
 
 (* model output = implementation output *)
 Definition case_agrees (c : case) : bool :=
@@ -180,6 +198,21 @@ Definition case_agrees (c : case) : bool :=
       | Some (d, q), Some (d', q') => Bool.eqb d d' && qpr_eqb q q'
       | _, _ => false
       end
+  | CPStart naggs size hi rev pattern avail syncs started calls impl =>
+      list_eqb (pair_eqb Nat.eqb Nat.eqb) (fst (proxy_start pattern)) calls
+      && Bool.eqb started (start_succeeds pattern)
+      && match start_then_fetch naggs size hi rev pattern avail, started, impl with
+         | None, false, None => true
+         | Some None, true, None => true
+         | Some (Some (d, q)), true, Some (d', q') => Bool.eqb d d' && qpr_eqb q q'
+         | _, _, _ => false
+         end
+  | CPool w plan final fnd dn res =>
+      let fin := pool_run_dir case_cp case_payload prog_ok plan pool_empty in
+      nl_eqb (map fst plan) (w_fs w)
+      && dir_eqb fin final
+      && Bool.eqb fnd true && Bool.eqb dn (is_done fin)
+      && qpr_eqb (fetch_dir (w_hi w) (w_rev w) (w_per w) fin) res
   end.
 
 (* implementation output satisfies the property (independent of the model's protocol and merge) *)
@@ -230,6 +263,24 @@ Definition case_spec_ok (c : case) : bool :=
              (* a finished search answers like the synchronous search over all shards *)
              && (negb d || same_answer size q (sync_search naggs size hi rev (map snd ans)))
          end
+  | CPStart naggs size hi rev pattern avail syncs started calls impl =>
+      (length pattern =? length syncs)%nat && (length pattern =? length avail)%nat
+      && (if started then
+            (* an ID is handed out only if every shard has a replica that accepted the request *)
+            forallb (existsb accepts) pattern
+            && match impl with
+               | None => false                        (* a started search is known to the cluster *)
+               | Some (d, q) =>
+                   (* Done only when every shard is done, and then it is the synchronous answer over ALL shards *)
+                   negb d || (forallb fst avail && same_answer size q (sync_search naggs size hi rev syncs))
+               end
+          else match impl with None => true | Some _ => false end)
+  | CPool w plan final fnd dn res =>
+      (* every <id>.<frac>.qpr decodes to that fraction's result; the answer is the synchronous one *)
+      fnd && dn
+      && match nm_find (fkey FInfo) final with Some (CInfo true) => true | _ => false end
+      && complete_qprs final (w_fs w)
+      && same_answer (w_limit w) res (w_sync w)
   end.
 
 Definition diff_indices (l : list case) : list nat := bad_indices (fun c => negb (case_agrees c)) l.
